@@ -217,6 +217,28 @@ class AliasedCheck:
         pass
 
 
+class TagFilteredAlias(AliasedCheck):
+    """AliasedCheck that keeps, of the mapped foreign rules, only the obligations recorded under one of `tags` (a rule with several clauses of
+    which only some are necessary conditions of this property); floors of the foreign rule are not inherited. `note` is appended to witnesses."""
+
+    def __init__(self, chk, mapping, tags, note=""):
+        super().__init__(chk, mapping)
+        self._tags, self._note = set(tags), note
+
+    def require(self, rule, site, cond, what, function="", tag="", witness=""):
+        if rule in self._m and tag not in self._tags:
+            return cond
+        return super().require(rule, site, cond, what, function, tag, (witness + self._note) if witness else witness)
+
+    def bad(self, rule, site, function, tag, detail, witness):
+        if rule in self._m and tag not in self._tags:
+            return
+        super().bad(rule, site, function, tag, detail, witness)
+
+    def floor(self, rule, n, minimum, what):
+        pass
+
+
 def load_known() -> list:
     if not os.path.exists(KNOWN_FILE):
         return []
